@@ -17,16 +17,16 @@ import (
 // ---------- C06: filter-approved nodes can be bound and get a routable IP ----------
 
 type c06Case struct {
-	Topo     Topo       `json:"topo"`
-	WL       WL         `json:"wl"`
-	PreAlloc []int      `json:"pre_alloc"` // picks of configured IPs allocated to other owners beforehand
-	Exhaust  int        `json:"exhaust"`   // pick of a pool to exhaust completely (-1 none)
-	Held     int        `json:"held"`      // pick of a free IP the pod already holds (-1 none)
-	Held2    int        `json:"held2"`     // pick of a second held IP for pods requesting ranges (-1 none)
-	Cands    int        `json:"cands"`     // candidate node mask
-	BindPick int        `json:"bind_pick"`
-	BindAll  bool       `json:"bind_all"` // thorough: bind every returned node on a rebuilt world
-	Restart  bool       `json:"restart"`  // galaxy-ipam is restarted (memory rebuilt from the store) before the pod is filtered
+	Topo     Topo  `json:"topo"`
+	WL       WL    `json:"wl"`
+	PreAlloc []int `json:"pre_alloc"` // picks of configured IPs allocated to other owners beforehand
+	Exhaust  int   `json:"exhaust"`   // pick of a pool to exhaust completely (-1 none)
+	Held     int   `json:"held"`      // pick of a free IP the pod already holds (-1 none)
+	Held2    int   `json:"held2"`     // pick of a second held IP for pods requesting ranges (-1 none)
+	Cands    int   `json:"cands"`     // candidate node mask
+	BindPick int   `json:"bind_pick"`
+	BindAll  bool  `json:"bind_all"` // thorough: bind every returned node on a rebuilt world
+	Restart  bool  `json:"restart"`  // galaxy-ipam is restarted (memory rebuilt from the store) before the pod is filtered
 }
 
 func genC06() *rapid.Generator[c06Case] {
